@@ -3684,6 +3684,17 @@ def pack_objects_to_data(
       progress: Optional progress reporting callback
     Returns: Tuples with (type_num, hexdigest, delta base, object chunks)
     """
+    # A pack holds every object once, like the packs git pack-objects writes.
+    # An object passed twice would otherwise be written as two records while
+    # the entries the writer returns, and so the index, have only one.
+    seen: set[bytes] = set()
+    unique = []
+    for entry in objects:
+        obj = entry[0] if isinstance(entry, tuple) else entry
+        if obj.id not in seen:
+            seen.add(obj.id)
+            unique.append(entry)
+    objects = unique  # type: ignore[assignment]
     count = len(objects)
     if deltify is None:
         # PERFORMANCE/TODO(jelmer): This should be enabled but the python
@@ -3798,7 +3809,8 @@ def write_pack_from_container(
       other_haves: Set of additional object IDs the receiver has
     Returns: Dict mapping id -> (offset, crc32 checksum), pack checksum
     """
-    pack_contents_count = len(object_ids)
+    # generate_unpacked_objects yields every object id once.
+    pack_contents_count = len(dict(object_ids))
     pack_contents = generate_unpacked_objects(
         container,
         object_ids,
